@@ -122,7 +122,8 @@ def check_structure(ctx, cl, case, full: bool, rng):
             a = (r, c); b = (r + 1, c) if d == 0 else (r, c + 1)
             edges.append((a, b) if rng.random() < 0.5 else (b, a))
         with ctx.guard("C13/is_connection", case):
-            res = is_connection(np.array(edges), cl)
+            # int8 is the dtype the library itself passes (lattice_connection_array, connection_list_to_adj_list)
+            res = is_connection(np.array(edges, dtype=(np.int8 if rng.random() < 0.6 else np.int64)), cl)
             ctx.ev(); ctx.tally("c13:is_connection")
             exp = [g.has_edge(a, b) for a, b in edges]
             ctx.check(list(map(bool, res)) == exp, "C13/is_connection-wrong", lambda: f"edges={edges} got={list(map(bool, res))} exp={exp}", case)
